@@ -212,12 +212,12 @@ func (c *converter) Continue() error {
 }
 
 func (c *converter) Print(values []string) error {
-	c.addLine(fmt.Sprintf("echo \"%s\"", strings.Join(values, " ")))
+	c.addLine(fmt.Sprintf("printf '%%s\\n' \"%s\"", strings.Join(values, " "))) // echo would interpret values like "-n" as options.
 	return nil
 }
 
 func (c *converter) Panic(value string) error {
-	c.addLine(fmt.Sprintf("echo \"%s\"", value))
+	c.addLine(fmt.Sprintf("printf '%%s\\n' \"%s\"", value))
 	c.addLine("exit 1")
 	return nil
 }
